@@ -24,7 +24,6 @@ import (
 	"github.com/google/pprof/profile"
 )
 
-
 type gi struct {
 	G string `json:"g"`
 	I int    `json:"i"`
@@ -61,9 +60,9 @@ func srcProfile(g string, i int) *profile.Profile {
 	return &profile.Profile{
 		SampleType: []*profile.ValueType{{Type: "samples", Unit: "count"}},
 		PeriodType: &profile.ValueType{Type: "cpu", Unit: "ns"}, Period: 1,
-		Sample:     []*profile.Sample{{Location: []*profile.Location{l}, Value: []int64{int64(i)}}},
-		Mapping:    []*profile.Mapping{m}, Location: []*profile.Location{l}, Function: []*profile.Function{f},
-		Comments:   []string{fmt.Sprintf("%s#%d", g, i)},
+		Sample:  []*profile.Sample{{Location: []*profile.Location{l}, Value: []int64{int64(i)}}},
+		Mapping: []*profile.Mapping{m}, Location: []*profile.Location{l}, Function: []*profile.Function{f},
+		Comments: []string{fmt.Sprintf("%s#%d", g, i)},
 	}
 }
 
@@ -161,18 +160,40 @@ func runOne(c *bcase, schedule string) fetchEvent {
 	}
 	// controller: release in the prescribed order, each one only after it has started and the previous one has returned
 	listed := map[gi]bool{}
+	// a source the driver never hands to the Fetcher, or a fetch that never returns, must not hang the run:
+	// the controller then opens every gate and the observation is reported
+	giveUp := func(x gi, what string) {
+		run.Violate("fetch", "fetch-"+what, fmt.Sprintf("source %v %s within 5 s (schedule %s)", x, what, schedule), c, nil)
+		mu.Lock()
+		defer mu.Unlock()
+		for _, ch := range release {
+			select {
+			case <-ch:
+			default:
+				close(ch)
+			}
+		}
+	}
 	go func() {
 		for _, x := range c.Order {
 			listed[x] = true
 			select {
 			case <-started[x]:
-			case <-time.After(20 * time.Second):
+			case <-time.After(5 * time.Second):
+				giveUp(x, "never-requested")
 				return
 			}
-			close(release[x])
+			mu.Lock()
+			select {
+			case <-release[x]:
+			default:
+				close(release[x])
+			}
+			mu.Unlock()
 			select {
 			case <-finished[x]:
-			case <-time.After(20 * time.Second):
+			case <-time.After(5 * time.Second):
+				giveUp(x, "never-returned")
 				return
 			}
 			// give the goroutine time to store its result before the next one completes
@@ -187,7 +208,13 @@ func runOne(c *bcase, schedule string) fetchEvent {
 			}
 		}
 		if !inOrder {
-			close(release[x])
+			mu.Lock()
+			select {
+			case <-release[x]:
+			default:
+				close(release[x])
+			}
+			mu.Unlock()
 		}
 	}
 	args := append([]string{"-proto", "-output=out", "-symbolize=none"}, flags...)
